@@ -23,6 +23,7 @@ import (
 	"sync"
 	"testing"
 	"testing/synctest"
+	"unicode/utf8"
 
 	"golang.org/x/sync/semaphore"
 
@@ -35,6 +36,7 @@ type verifPhase struct{ tokens, reads int }
 type verifSched struct {
 	phases []verifPhase
 	tail   int // reads per token once the phases are over
+	quitAt int // > 0: after that many tokens the reader closes seq.quit and never reads again (client disconnect)
 }
 
 func (sc *verifSched) next() int {
@@ -56,7 +58,8 @@ type verifSchedResult struct {
 }
 
 func verifRunSched(t *testing.T, limit int, stops []string, script []verifEv, sched verifSched) (res verifSchedResult, err error) {
-	sc := verifSched{phases: append([]verifPhase(nil), sched.phases...), tail: sched.tail}
+	sc := verifSched{phases: append([]verifPhase(nil), sched.phases...), tail: sched.tail, quitAt: sched.quitAt}
+	quitted := false
 	synctest.Test(t, func(t *testing.T) {
 		m := &verifModel{script: script}
 		s := &Server{
@@ -140,6 +143,10 @@ func verifRunSched(t *testing.T, limit int, stops []string, script []verifEv, sc
 				if got {
 					break
 				}
+				if quitted {
+					err = errors.New("producer blocked although seq.quit is closed")
+					return
+				}
 				if !read1() {
 					err = errors.New("producer blocked but nothing to read")
 					return
@@ -147,6 +154,16 @@ func verifRunSched(t *testing.T, limit int, stops []string, script []verifEv, sc
 				res.forced++
 			}
 			if s.seqs[0] == nil {
+				if quitted { // the reader is gone: look at the channel only to see that it was closed
+					for {
+						c, ok := <-seq.responses
+						if !ok {
+							closed = true
+							break
+						}
+						res.buf = append(res.buf, c)
+					}
+				}
 				for read1() {
 				}
 				if !closed {
@@ -178,7 +195,14 @@ func verifRunSched(t *testing.T, limit int, stops []string, script []verifEv, sc
 				err = perr
 				return
 			}
+			if quitted {
+				continue
+			}
 			for r := sc.next(); r > 0 && read1(); r-- {
+			}
+			if sc.quitAt > 0 && iter+1 == sc.quitAt {
+				close(seq.quit)
+				quitted = true
 			}
 		}
 		res.np = seq.numPredicted
@@ -190,7 +214,11 @@ func verifRunSched(t *testing.T, limit int, stops []string, script []verifEv, sc
 
 func verifSchedLine(capacity, limit int, stops []string, script []verifEv, sched verifSched) string {
 	var sb strings.Builder
-	fmt.Fprintf(&sb, "loopsched %d %d %d", verifPinnedFindStop, capacity, len(sched.phases))
+	op := "loopsched"
+	if sched.quitAt > 0 {
+		op = fmt.Sprintf("loopquit:%d", sched.quitAt) // L2 / replay only; there is no oracle command for it
+	}
+	fmt.Fprintf(&sb, "%s %d %d %d", op, verifPinnedFindStop, capacity, len(sched.phases))
 	for _, ph := range sched.phases {
 		fmt.Fprintf(&sb, " %d %d", ph.tokens, ph.reads)
 	}
@@ -201,6 +229,10 @@ func verifSchedLine(capacity, limit int, stops []string, script []verifEv, sched
 
 func verifParseSchedLine(line string) (limit int, stops []string, script []verifEv, sched verifSched, err error) {
 	toks := strings.Fields(line)
+	if len(toks) >= 6 && strings.HasPrefix(toks[0], "loopquit:") {
+		sched.quitAt, _ = strconv.Atoi(strings.TrimPrefix(toks[0], "loopquit:"))
+		toks[0] = "loopsched"
+	}
 	if len(toks) < 6 || toks[0] != "loopsched" {
 		return 0, nil, nil, sched, errors.New("not a loopsched line")
 	}
@@ -226,6 +258,10 @@ func verifSchedCase(t *testing.T, out *zzverif.Out, limit int, stops []string, s
 	if err != nil {
 		out.Case(line, "err:"+strings.ReplaceAll(err.Error(), "\n", " "))
 		out.L2("loop-error", line, err.Error())
+		return
+	}
+	if sched.quitAt > 0 {
+		verifQuitL2(out, line, limit, stops, script, res)
 		return
 	}
 	out.Case(line, fmt.Sprintf("%s np=%d recv=%s buf=%s pend=%s forced=%d", res.reason, res.np,
@@ -259,6 +295,41 @@ func verifSchedCase(t *testing.T, out *zzverif.Out, limit int, stops []string, s
 		out.L2("output-depends-on-consumer-schedule", line, fmt.Sprintf("lagging: %s np=%d chunks=%d bytes=%d pend=%d; prompt reader: %s np=%d chunks=%d bytes=%d pend=%d",
 			res.reason, res.np, len(all.chunks), len(strings.Join(all.chunks, "")), len(res.pending),
 			ref.reason, ref.np, len(ref.chunks), len(strings.Join(ref.chunks, "")), len(ref.pending)))
+	}
+}
+
+// verifQuitL2: the client disconnected after sched.quitAt tokens.  After that the select in flushPending is
+// nondeterministic (send vs quit), so there is no exact model observation; what must hold: the chunks the reader
+// holds are a prefix (chunk by chunk) of what a reader that stays receives, every chunk is valid UTF-8, the
+// sequence is removed (reason "" = connection closed, or the natural one), nothing generated after removal.
+func verifQuitL2(out *zzverif.Out, line string, limit int, stops []string, script []verifEv, res verifSchedResult) {
+	out.Count("sched_quit_cases")
+	ref, rerr := verifRunLoop(limit, stops, script)
+	if rerr != nil {
+		out.L2("loop-error", line, rerr.Error())
+		return
+	}
+	for _, c := range res.chunks {
+		if c == "" || !utf8.ValidString(c) {
+			out.L2("chunk-invalid-utf8", line, fmt.Sprintf("chunk=%x", c))
+		}
+	}
+	held := append(append([]string(nil), res.chunks...), res.buf...) // received, then sent but never read
+	ok := len(held) <= len(ref.chunks)
+	for i := 0; ok && i < len(held); i++ {
+		ok = held[i] == ref.chunks[i]
+	}
+	if !ok {
+		out.L2("disconnect-not-prefix", line, fmt.Sprintf("held %d chunks (%d bytes), staying reader gets %d chunks", len(held), len(strings.Join(held, "")), len(ref.chunks)))
+	}
+	if res.reason == "running" {
+		return
+	}
+	if res.reason != "closed" && res.reason != ref.reason {
+		out.L2("disconnect-reason", line, fmt.Sprintf("reason=%s staying reader: %s", res.reason, ref.reason))
+	}
+	if res.np > ref.np {
+		out.L2("disconnect-overrun", line, fmt.Sprintf("np=%d staying reader: %d", res.np, ref.np))
 	}
 }
 
@@ -349,6 +420,12 @@ func verifGenSchedCase(r *zzverif.Rng, capacity int) (int, []string, []verifEv, 
 		sched.tail = 0
 	default: // keeps up
 		sched = verifSched{tail: 1000}
+	}
+	if r.Chance(1, 5) { // the client disconnects somewhere (early, around the capacity, near the end)
+		sched.quitAt = zzverif.Pick(r, []int{1, r.Range(1, len(script)+1), r.Range(capacity-3, capacity+5), len(script) - 1, len(script)})
+		if sched.quitAt < 1 {
+			sched.quitAt = 1
+		}
 	}
 	return limit, stops, script, sched
 }
